@@ -38,6 +38,14 @@ fn main() {
         }
         return;
     }
+    if args.prop == "count" {
+        let n: usize = args.extra.get("n").and_then(|x| x.parse().ok()).unwrap_or(4);
+        let e = ast::Enum::new(n);
+        for k in 1..=n {
+            println!("{k}: {} programs", e.programs(k).len());
+        }
+        return;
+    }
     if args.prop == "probe" {
         // vh-scope probe --program <postfix>   : print the rendered text and the real resolution
         let enc = args.extra.get("program").expect("--program");
